@@ -34,6 +34,7 @@ type c19Case struct {
 	Path      bool
 	BeforeErr string // "" | name of the operation whose before-request call fails
 	URLQuery  bool   // the configured server URL carries a query string (e.g. an API key)
+	Factory   bool   // the request handler is installed by replacing the package's handler factory (mcp.NewHTTPReqHandler) instead of by option
 	Reopen    bool   // after the history the client is closed and used again (Close, Initialize, requests, terminate)
 	Split     bool   // the static headers are configured through two WithHTTPHeaders options (with another option in between) instead of one
 	FirstInit int    // 0 = the handshake succeeds at once; else the HTTP status with which the server refuses the first initialize (no session id issued), after which the client initializes again
@@ -54,6 +55,11 @@ func c19Cases(tier string) []c19Case {
 				c5 := c
 				c5.Split = true
 				out = append(out, c5)
+			}
+			if c.Handler && (mask == 4 || mask == 15) {
+				c7 := c
+				c7.Factory = true
+				out = append(out, c7)
 			}
 			if cl != "ls" && (mask == 2 || mask == 3 || mask == 15) {
 				c6 := c
@@ -81,7 +87,7 @@ func c19Cases(tier string) []c19Case {
 
 func c19Eval(tier string, i int) CaseResult {
 	cs := c19Cases(tier)[i]
-	cr := CaseResult{Desc: fmt.Sprintf("client=%s static=%v before=%v handler=%v path=%v beforeErr=%q firstInit=%d urlQuery=%v split=%v", cs.Client, cs.Static, cs.Before, cs.Handler, cs.Path, cs.BeforeErr, cs.FirstInit, cs.URLQuery, cs.Split) + map[bool]string{true: " reopen", false: ""}[cs.Reopen], Nontrivial: true}
+	cr := CaseResult{Desc: fmt.Sprintf("client=%s static=%v before=%v handler=%v path=%v beforeErr=%q firstInit=%d urlQuery=%v split=%v", cs.Client, cs.Static, cs.Before, cs.Handler, cs.Path, cs.BeforeErr, cs.FirstInit, cs.URLQuery, cs.Split) + map[bool]string{true: " reopen", false: ""}[cs.Reopen] + map[bool]string{true: " handler-by-factory", false: ""}[cs.Factory], Nontrivial: true}
 	var viol []explore.Violation
 	obs := &hx.Log{}
 	k := func(s string) string { return fmt.Sprintf("%s:%s", s, cs.Client) }
@@ -132,8 +138,14 @@ func c19Eval(tier string, i int) CaseResult {
 			}))
 		}
 		h := &c19Handler{}
-		if cs.Handler {
+		if cs.Handler && !cs.Factory {
 			opts = append(opts, mcp.WithHTTPReqHandler(h))
+		}
+		if cs.Handler && cs.Factory {
+			// the other documented way of configuring the handler: the package-level factory every client consults
+			saved := mcp.NewHTTPReqHandler
+			mcp.NewHTTPReqHandler = func(serviceName string, options ...mcp.HTTPReqHandlerOption) mcp.HTTPReqHandler { return h }
+			defer func() { mcp.NewHTTPReqHandler = saved }()
 		}
 		wantPath := "/mcp"
 		if cs.Client == "ls" {
